@@ -83,7 +83,8 @@ extern "C" int h_race(void) {
     return 2;
   }
   if (scen == 3) {
-    static const char kText[] = "{\"a\":1,\"b\":[true,\"s\",2.5e3],\"c\":{\"d\":null}}";
+    // numbers chosen to take every text->double path: exact fast path, Eisel-Lemire, and the big-decimal fallback (subnormal, >19 digits)
+    static const char kText[] = "{\"a\":1,\"b\":[true,\"s\",2.5e3,4.9e-324,1.7976931348623157e308,0.1234567890123456789012345,1e-400],\"c\":{\"d\":null}}";
     for (int round = 0; round < 2; round++) {
       if (round == 1) verif_track_begin(3);
       sonic_json::Document d; d.Parse(kText, sizeof(kText) - 1);
